@@ -48,6 +48,7 @@ LEVEL = {
 }
 LEVEL["decided"] += " (R10.7) the descriptor decides 'looked up on the class' by `instance is None` only."
 LEVEL["decided"] += ' R10.3 is path-based: every path through cache_clear resets hits, misses and the store together.'
+LEVEL["decided"] += ' (R10.8) hit or miss is decided by the presence of the key, never by comparing a looked-up value with None / a constant.'
 
 
 def run(ctx) -> None:
